@@ -62,7 +62,7 @@ Print Assumptions C02_check_agrees.
    whenever the model does not Crash.  So the theorems above speak about the code as it is now for these functions;
    put_obj/remove_obj/remove_min, which call them, stay tied by the lockstep runs. *)
 From Coq Require Import ZArith.
-From QV.Tree Require Import TreeHeap TreeHeapProofs TreeHeapMrl TreeHeapFix TreeHeapRmin TreeHeapPut TreeHeapFind TreeHeapCheck.
+From QV.Tree Require Import TreeHeap TreeHeapProofs TreeHeapMrl TreeHeapFix TreeHeapRmin TreeHeapPut TreeHeapFind TreeHeapCheck TreeHeapRem.
 From QV.Gen Require Import TreeOps.
 Theorem C02_c_helpers_refine :
   refines c_flip_color flip /\ refines c_rotate_left rotl /\ refines c_rotate_right rotr /\
@@ -109,6 +109,16 @@ Proof. exact c_find_obj_ok. Qed.
 Theorem C02_c_checkers : forall (t : tree positive) h p, rep h p t ->
   c_node_check_red (S (size t)) p h = Ok (check_red t, h) /\ c_node_check_llrb (S (size t)) p h = Ok (check_llrb t, h).
 Proof. exact c_checkers_ok. Qed.
+(* remove_obj(): the translated recursion refines the model's rem (merge x m = x: the node object at the removed key's place
+   stays and takes the successor's key and value, the successor's object is the one released by remove_min), for every
+   comparator answer function kc, every heap and every fuel above the number of nodes (the C code calls find_min, whose loop
+   needs that much).  kc may be a function of the node object because within one call every comparison is made before any key
+   moves; the lazily recomputed `cmp` of the C code (flag recmp) is shown to equal the model's fresh comparison each time. *)
+Theorem C02_c_remove_obj_refines : forall (kc : positive -> Z) (k : positive) fuel h p (t t' : tree positive) b,
+  rep h p t -> NoDup (elements t) -> size t < fuel ->
+  rem (fun (_ x : positive) => zcmp (kc x)) (fun (x _ : positive) => x) fuel t k = Ok (t', b) ->
+  exists p' h', c_remove_obj kc fuel p h = Ok (p', h') /\ rep h' p' t' /\ frame (elements t) h h'.
+Proof. exact c_rem_refines_ex. Qed.
 (* non-vacuity: a three-node heap with a red right child; fix() rotates it to the left *)
 Example C02_c_helpers_nonvacuous :
   let h : heap := fun j => match j with 1%positive => Some (mkcell false (Some 2%positive) (Some 3%positive))
@@ -126,3 +136,4 @@ Print Assumptions C02_c_remove_min_refines.
 Print Assumptions C02_c_put_obj_refines.
 Print Assumptions C02_c_find_obj.
 Print Assumptions C02_c_checkers.
+Print Assumptions C02_c_remove_obj_refines.
